@@ -16,5 +16,5 @@ def plan(tier, seed):
 
 def run_shard(spec, acc):
   mon = histories.ShadowMonitor()
-  h = histories.History(acc, spec['hseed'], [mon], spec['steps'])
+  h = histories.History(acc, spec['hseed'], [mon], spec['steps'], avoid_open_triggers=False)
   h.run()
